@@ -563,17 +563,23 @@ func (d *Decoder) newCoderAndShards() (rsec16.Coder, [][]byte, error) {
 		return rsec16.Coder{}, nil, errors.New("no file integrity info")
 	}
 
-	if len(d.parityShards) == 0 {
-		return rsec16.Coder{}, nil, errors.New("no parity shards")
-	}
-
 	var dataShards [][]byte
 	for _, info := range d.fileIntegrityInfos {
 		for _, shardInfo := range info.shardInfos {
 			dataShards = append(dataShards, shardInfo.data)
 		}
 	}
-	coder, err := rsec16.NewCoderPAR2Vandermonde(len(dataShards), len(d.parityShards), d.numGoroutines)
+
+	// Having no parity shards at all isn't an error by itself:
+	// repair is then still possible if no data shard is missing
+	// (e.g. if files only need to be reassembled), and otherwise
+	// ReconstructData returns NotEnoughParityShardsError. The
+	// coder needs at least one parity shard, though.
+	parityShardCount := len(d.parityShards)
+	if parityShardCount == 0 {
+		parityShardCount = 1
+	}
+	coder, err := rsec16.NewCoderPAR2Vandermonde(len(dataShards), parityShardCount, d.numGoroutines)
 	if err != nil {
 		return rsec16.Coder{}, nil, err
 	}
